@@ -148,7 +148,9 @@ def run(tier: str) -> Run:
         r6.check(not bad and any(o.kind == 'return' for o in all_outs), name, loc(kfi), {'refusals': bad[:3]}, key=f'total:{name}')
     # the kernels answer from their arguments alone: no module-level state is written (a cache of the last inverse, a memo of a
     # constant, ...), so that R or UB updated in place between two calls is seen by the second call
-    r8 = run.rule('R8', 'the Q / hkl kernels keep no state between calls (no module-level write, no memoised result handed out)', 5)
-    from .common import history_free
-    history_free(repo, [repo.func('conversion.tof', n) for n in KERNELS], r8)
+    r8 = run.rule('R8', 'the Q / hkl kernels answer from their arguments alone: after any other kernel call a kernel returns what it returns in a '
+                        'fresh interpreter (two-call histories interpreted in one world); no memoised result is handed out', 5)
+    from .common import history_free, kernel_histories
+    kfis = [repo.func('conversion.tof', n) for n in KERNELS]
+    history_free(repo, kfis, r8, histories=kernel_histories(repo, kfis))
     return run
